@@ -199,6 +199,41 @@ class CodecRoundTripTask(Task):
              len(ws) == 1 and len(rs) == 1 and ws[0].args[1] == rs[0].args[1], detail=f"{[w.args[1] for w in ws]} vs {[r.args[1] for r in rs]}")
 
 
+class EncodeFailureTask(CodecRoundTripTask):
+    """dsutils.encode is how every service class finds out that a handler's data set cannot be encoded (it then answers with the
+    documented failure status instead of crashing): whatever exception pydicom's writer raises, encode() returns None and
+    raises nothing.  The writer's exception is one representative per exception class encode() names, plus one of a class it
+    cannot name."""
+    name = "dsutils.encode/an-unencodable-dataset-gives-None"
+    functions = [f"{DS}:encode"]
+
+    def __init__(self, prefix="C21/"):
+        self.prefix = prefix
+
+    def config(self, repo):
+        from contracts.acse_accept import exception_partition
+        c = CodecRoundTripTask.config(self, repo)
+        c.ob_prefix = self.prefix
+        excs = [e for e in exception_partition(repo.func(f"{DS}:encode")) if e != "RuntimeError"] + ["OSError", "NotImplementedError", "HandlerDefinedError"]
+
+        def write_dataset(I, a, k):
+            I.ghost["exc"] = excs[I.choose(len(excs), "exception class raised by pydicom's writer")]
+            raise PyRaise(ExcVal(I.ghost["exc"], ("cannot encode the data set",)))
+        c.ext_models["pydicom.filewriter.write_dataset"] = write_dataset
+        return c
+
+    def body(self, I):
+        P = f"{self.prefix}pynetdicom.dsutils:encode"
+        names = list(SYNTAXES)
+        imp, little, defl = SYNTAXES[names[I.choose(len(names), "transfer syntax")]]
+        ds = Env("the-dataset")
+        ds.truth = True
+        kind, enc = I.run_function(I.repo.func(f"{DS}:encode"), [ds, imp, little, defl])
+        I.ob(f"{P}/never-raises-whatever-the-writer-raises", kind == "return", detail=f"writer raised {I.ghost.get('exc')}: {kind}:{enc!r}")
+        if kind == "return":
+            I.ob(f"{P}/returns-None-for-a-dataset-the-writer-refuses", enc is None, detail=repr(enc))
+
+
 GETDS = f"{EV}:Event._get_dataset"
 ENCDS = f"{EV}:Event.encoded_dataset"
 
